@@ -228,10 +228,17 @@ class InstRecorder:
         def prep(vc, asm, fn, stack):
             start = len(asm)
             before = list(stack._stack)
+            sp = vc.spiller
+            slots0 = set(sp._spill_free_slots)
+            next0 = sp._next_spill_offset
             r = rec._orig_prep(vc, asm, fn, stack)
             params = [i.output for i in fn.entry.instructions if i.is_param]
+            # popmany / the optimistic swap may reach deeper than 16 through the spiller's transient slots
+            slots = slots0 | set(sp._spill_free_slots)
+            if next0 is not None and sp._next_spill_offset is not None:
+                slots |= set(range(next0, sp._next_spill_offset, 32))
             try:
-                m = Machine(before + params, {}, set())
+                m = Machine(before + params, {}, slots)
                 toks = tokenize(asm[start:])
                 i = 0
                 while i < len(toks):
